@@ -43,9 +43,13 @@ func TestMain(m *testing.M) {
 		"ns:admin", "ns:aqua", "ns:btc", "ns:debug", "ns:miner", "ns:net", "ns:personal", "ns:rpc", "ns:testing", "ns:txpool", "ns:web3",
 		"reached:unlocked-account", "reached:right-passphrase", "names:locked-account", "pass:wrong", "txargs:mirror-pending",
 		"wire-alias", "sent-in-batch", "subscription", "witness",
-		"positive-control-fired", "expect:must-not", "expect:must", "env-kind:falsy")
-	ev.MustHitThorough("env-kind:combo", "env-kind:unparsable", "env-kind:mixed", "expect:may",
-		"positive-control-fired:inproc", "positive-control-fired:ipc", "positive-control-fired:http", "positive-control-fired:ws")
+		"positive-control-fired", "expect:must-not", "expect:must")
+	if !ev.Thorough() {
+		// must-hit classes are judged per shard process; in the thorough tier the explicit-negative,
+		// mixed and unparsable environments are spread over the shards (see the merged label
+		// histogram), every shard has the default environment and at least one opted-in transport
+		ev.MustHit("env-kind:falsy", "env:only-inproc", "env:only-ipc", "env:only-http", "env:only-ws", "env:only-global", "env:all-negative")
+	}
 	var excl []string
 	for k, v := range excludedMethods {
 		excl = append(excl, k+" ("+v+")")
